@@ -8,6 +8,7 @@ package dastard
 // CoreLoop, a producer that continues / errors / closes, and an optional Stop caller.
 
 import (
+	"runtime"
 	"encoding/base64"
 	"fmt"
 	"os"
@@ -748,6 +749,83 @@ func v11RunTiming(x *vexp.X, tm v11Timing) vexp.Result {
 	return r
 }
 
+// v11RunAbaco: requests against a running hardware-type source (the real AbacoSource, whose getNextBlock starts a
+// worker goroutine per call, fed by a scripted packet producer and a clock thread), then Stop.
+func v11RunAbaco(x *vexp.X) vexp.Result {
+	src, clock := v17NewAbaco()
+	defer src.stopTickers()
+	sc := new(SourceControl)
+	sc.heartbeats = make(chan Heartbeat, 4096)
+	sc.queuedRequests = make(chan func())
+	sc.queuedResults = make(chan error)
+	sc.clientUpdates = make(chan ClientUpdate, 1<<12)
+	sc.mapServer = newMapServer()
+	sc.mapServer.clientUpdates = sc.clientUpdates
+	sc.status.Npresamp, sc.status.Nsamples = 3, 6
+	sc.status.ChanGroups = make([]GroupIndex, 0)
+	sc.ActiveSource = src
+	started := make(chan struct{})
+	var errs [3]error
+	var viol, class string
+	client := func() {
+		sc.status.Running = true
+		if err := Start(src, sc.queuedRequests, 3, 6); err != nil {
+			viol, class = "Start of the Abaco source failed: "+err.Error(), "start-error"
+			close(started)
+			return
+		}
+		sc.isSourceActive = true
+		close(started)
+		var ok bool
+		errs[0] = sc.ConfigureTriggers(&FullTriggerState{ChannelIndices: []int{0, 1}, TriggerState: TriggerState{EdgeTrigger: true, EdgeRising: true, EdgeLevel: 30000}}, &ok) // never fires: nobody reads the record channels here
+		<-src.done // a block has been processed after the request
+		errs[1] = sc.ConfigurePulseLengths(SizeObject{Nsamp: 8, Npre: 4}, &ok)
+		d := ""
+		errs[2] = sc.Stop(&d, &ok)
+	}
+	s := vhook.Run(x, vhook.Options{MaxSteps: 1500, Names: []string{"client", "clock"}, DelayBound: true}, client, clock(started))
+	out := s.Outcome()
+	if out.Pruned {
+		s.Release(2 * time.Second)
+		if out.PanicClass != "" {
+			return vexp.Result{Violation: "abaco: panic (free-running tail of a pruned execution): " + out.PanicText, Class: out.PanicClass}
+		}
+		return vexp.Result{Skip: true}
+	}
+	switch {
+	case out.PanicClass != "":
+		viol, class = "panic: "+out.PanicText, out.PanicClass
+	case out.Deadlock:
+		viol, class = fmt.Sprintf("deadlock: %v", out.Blocked), "request-never-answered"
+		if os.Getenv("VERIF_STACKS") != "" {
+			buf := make([]byte, 1<<20)
+			viol += "\n" + string(buf[:runtime.Stack(buf, true)])
+		}
+	case out.Horizon:
+		viol, class = fmt.Sprintf("no termination within %d scheduling steps", out.Steps), "runaway"
+	}
+	s.Release(2 * time.Second)
+	if viol == "" && out.PanicClass != "" {
+		viol, class = "panic: "+out.PanicText, out.PanicClass
+	}
+	if viol == "" {
+		for i, e := range errs {
+			if e != nil {
+				viol, class = fmt.Sprintf("valid request %d (0 ConfigureTriggers, 1 ConfigurePulseLengths, 2 Stop) on the running Abaco source was answered with %v", i, e), "valid-request-rejected"
+				break
+			}
+		}
+	}
+	if viol != "" {
+		viol = "abaco/requests-then-stop: " + viol + "\nschedule: " + s.TraceString()
+	}
+	res := vexp.Result{Violation: viol, Class: class, Nontrivial: out.Preempt > 0, Outcome: fmt.Sprintf("errs=%v", errs)}
+	if out.Horizon {
+		res.CutAt = 60
+	}
+	return res
+}
+
 func TestVerifC11(t *testing.T) {
 	r := vexp.NewRunner("C11")
 	r.CrashTrace = true
@@ -790,6 +868,7 @@ func TestVerifC11(t *testing.T) {
 			}
 		}
 	}
+	r.DFSSharded("hw/abaco/requests-then-stop", pb+1, 2, v11RunAbaco)
 	for _, tm := range tms {
 		tm := tm
 		r.DFSSharded(tm.name, pb, 2, func(x *vexp.X) vexp.Result { return v11RunTiming(x, tm) })
